@@ -272,7 +272,8 @@ SameId(n1, p1, n2, p2) == n1 = n2 /\ (n1 \in ParamLess \/ p1 = p2)
 TextRt == /\ Is("text_rt") /\ Step /\ UNCHANGED <<wrs, rds>>
           /\ Ev.res = "ok" /\ SameId(Ev.an, Ev.ap, Ev.bn, Ev.bp)
 ParseEv == /\ Is("parse") /\ Step /\ UNCHANGED <<wrs, rds>>
-           /\ LET t == [name |-> Ev.name, paren |-> Ev.paren, pkind |-> Ev.pkind, pval |-> Nat8(Ev.pval), trailing |-> Ev.trailing]
+           /\ LET t == [name |-> Ev.name, paren |-> Ev.paren, pkind |-> Ev.pkind, pval |-> Nat8(Ev.pval), trailing |-> Ev.trailing,
+                         close |-> IF Has(Ev, "close") THEN Ev.close ELSE TRUE]
               IN  IF MustReject(t) THEN Ev.res = "err"
                   ELSE IF WellFormed(t) THEN Ev.res = "ok" /\ SameId(Ev.name, Ev.pval, Ev.bn, Ev.bp)
                   ELSE Ev.res = "err" \/ SameId(Ev.name, Ev.pval, Ev.bn, Ev.bp)
